@@ -15,8 +15,11 @@ WORDCH = re.compile(r'[A-Za-z0-9_]')
 OPCH = set('+-*/%^<>=!|&~:?.@')
 SPACED_OPS = ('<=', '>=', '!=', '<', '>', '==')
 
-VARS = ['x', 'y', 'z', 'a1', 'v_2', 'inx', 'xin', 'thenb', 'elsey', 'ifz', 'combinex', 'distinctly', 'u']
-PREDS = ['P', 'Q', 'R', 'Foo', 'Bar2', 'T_x', 'In', 'Distinct']
+VARS = ['x', 'y', 'z', 'a1', 'v_2', 'inx', 'xin', 'thenb', 'elsey', 'ifz', 'combinex', 'distinctly', 'u',
+        'b_else', 'else_b', 'then_b', 'a_then', 'if_c', 'c_if', 'in_d', 'd_in', 'a_limit', 'limit_a', 'order_by_x',
+        'x_distinct', 'is_null', 'combine_y']
+PREDS = ['P', 'Q', 'R', 'Foo', 'Bar2', 'T_x', 'In', 'Distinct', 'My_limit', 'Is_distinct', 'Limit_x', 'A_in', 'In_b',
+         'Order_by', 'X_then', 'Else_y']
 FIELDS = ['a', 'b', 'c2', 'name', 'inn']
 AGGS = ['+=', 'List=', 'Max=', 'Sum=', 'ArgMax=']
 BINOPS = ['+', '-', '*', '/', '%', '==', '!=', '<', '<=', '>', '>=', '&&', '||', '++', '->', '^']
